@@ -2262,6 +2262,14 @@ static bool checkAccepted(const IrModel &ir0, const ModelPtr &model, const std::
         return true;
     }
     stat("valid_models_rejected");
+    {
+        std::string shape = mismatchOfZero(v.summary.substr(0, v.summary.find('\n')));
+        if (!shape.empty()) {
+            // connected variables that "mismatch" by base^0 only: one known shape, whatever feature hides it
+            viol("C04", "false-rejection:" + rn(v.firstRule) + shape, "valid-by-construction model (" + path + ") rejected\n" + v.summary, replay);
+            return false;
+        }
+    }
     IrModel ir = deepCopy(ir0);
     for (int round = 0; round < 6 && v.issues != 0; ++round) {
         Rule r0 = v.firstRule;
